@@ -109,5 +109,15 @@ func VerifRecordHellos(conns [][][]byte, cfg *tls.Config) []string {
 		}
 		ln.helloInfosMu.RUnlock()
 	}
+	// every connection is still open: what was recorded for an earlier one must not have changed meanwhile
+	for i := range conns {
+		ln.helloInfosMu.RLock()
+		if info, ok := ln.helloInfos[fmt.Sprintf("192.0.2.7:%d", 5000+i)]; ok {
+			if now := fmt.Sprintf("%+v", info); now != out[i] {
+				out[i] = "CHANGED-AFTER-LATER-CONNECTIONS: " + now + " (was " + out[i] + ")"
+			}
+		}
+		ln.helloInfosMu.RUnlock()
+	}
 	return out
 }
